@@ -27,7 +27,10 @@ RULE = ("malformed stream: per operation and per precondition, descriptors viola
         "shapes (distinct sizes, cubical, singleton modes, 1-way, 2-way) incl. length-1 vectors, swapped matrix dims, short "
         "factor lists, repeated/negative/out-of-range modes, non-permutations (too short, over-long with repeats that still mention "
         "every mode, shifted, negative, empty), size tuples rearranged or re-factored with the same product (ttv/ttm/mttkrp), "
-        "wrong-count reshapes, inconsistent components, bad options; plus well-formed controls. non-trivial = the case violates a precondition (controls are trivial); "
+        "wrong-count reshapes, inconsistent components, bad options; tenmat + / - on pairs (tshape, rdims, cdims) incl. N x 1 against 1 x N "
+        "and singleton-mode splits; every stream repeated on operand kinds (sparse: empty / X - X / one entry / explicit zeros / reversed; "
+        "dense: C-ordered, all-zero, strided view; ktensor: C-ordered factors, normalised; multiplicands C-ordered / strided); "
+        "plus well-formed controls. non-trivial = the case violates a precondition (controls are trivial); "
         "distinct = distinct (op, descriptor)")
 EXPLANATION = ("Theorems: for every covered operation guard_<op> (transliteration of the checks the code performs, numpy's "
                "implicit checks and early returns included; mode selection is the tt_dimscheck regenerated from "
@@ -40,8 +43,10 @@ CORRESPONDENCE_ONLY = sorted(n for n in O.OPS if n not in O.PROVED)
 ASSUMPTIONS = ["which exception type is raised is not part of the property and is not compared",
                "guard_<op> is a hand transliteration of the checks (tied to the code by the correspondence stream only, "
                "except tt_dimscheck which is translated from source)",
-               "values of operands are fixed small integers: rejection is assumed to depend on shapes/lengths/modes/options "
-               "(and, for sparse receivers, on whether any nonzero is stored — both cases are generated)"]
+               "values of operands are fixed small integers: rejection is assumed to depend on shapes/lengths/modes/options; "
+               "memory layout, stored pattern (no entry / one / explicit zeros / reversed) and all-zero data are varied (operand kinds) "
+               "and must not change the outcome",
+               "tensor.nvecs: only the mode argument is modelled; gcp_opt: rank <= 0 is refused by an arithmetic accident modelled as one check"]
 
 
 CAP = {"quick": 150, "thorough": 1200}
@@ -71,7 +76,9 @@ def gen_cases(rng, tier):
                 lim = per if tag[1:] == (None, None, None) else per_kind
                 if len(bytag[tag]) > lim:
                     bytag[tag] = rng.sample(bytag[tag], lim)
-        for tag in bytag:
+        # ill-formed requests first, controls last: the first reported mismatches then carry an input on which the property
+        # itself fails (a control that is wrongly refused is a model mismatch, not a violation of C19)
+        for tag in sorted(bytag, key=lambda k: k[0] == "control"):
             cases += bytag[tag]
     return cases
 
